@@ -14,7 +14,7 @@ LEVEL = 'fault_enumeration'
 RULE = ('corpus of (program, query, pre-existing bindings): A body trees with <= N operators in the C05 context; B '
         'single-clause predicates over all head-argument shapes x query shapes; C the meta-call programs of C09 (once, '
         'findall, \\+, call/N); D bare unify(t1,t2) over a term universe; E clauses that assert/retract (fresh engine per '
-        'run); F programs whose fact predicates are Python generators. For each: a fault-free run counts the answers n, '
+        'run); F programs whose fact predicates are Python generators; H dynamic facts containing variables used by clauses whose later goals bind them in several ways. For each: a fault-free run counts the answers n, '
         'then one run per ending: exhaustion, and for every k in 0..n {close() after the k-th answer, dropping the last '
         'reference, throw() by the consumer}; for F additionally one run per event j at which a Python predicate raises. '
         'After every ending EVERY live engine variable (weak set hook) must be in the binding state it had before the '
@@ -441,6 +441,29 @@ def scen_db(gs):
     return [Scenario(label, build, goal, (), rebuild=True, ref_build=ref_build)]
 
 
+def corpus_varfacts():
+    """H: dynamic facts that contain variables, used by clauses whose later goals bind what the
+    fact left open (several solutions, so the bindings are made and undone repeatedly)"""
+    from . import c13
+    Y = V('Y')
+    stores = [[F('p', ('v', ('_', 1)))], [F('p', F('f', ('v', ('_', 1)))), F('p', A('b'))], [F('p', F('g', Y, Y))],
+              [F('p', ('v', ('_', 1))), F('p', ('v', ('_', 2)))]]
+    goals = [F('e', V('Q')), F('u', V('Q1'), V('Q2')), F('p', V('Q')), F('e', F('g', V('Q1'), V('Q2')))]
+    idx = 0
+    for st in stores:
+        for g in goals:
+            yield idx, st, g
+            idx += 1
+
+
+def scen_varfacts(store, goal):
+    from . import c13
+    build, ref_build = make_builders([([c13.UCLAUSE] + c13.ECLAUSES, True)], store)
+    label = 'program:\n%sdynamic facts %s\nquery %s' % (show_program([c13.UCLAUSE] + c13.ECLAUSES), [show_term(t) for t in store], show_term(goal))
+    return [Scenario(label + '\npre-bound: %s' % ([(pp(l), pp(r)) for l, r in pre],), build, goal, pre, ref_build=ref_build)
+            for pre in prebindings(goal)]
+
+
 def run_python_faults(acc, index, t):
     """F: all fact predicates are Python generators; one run per event j at which one raises"""
     body, k = bodies.instantiate(t)
@@ -514,7 +537,7 @@ NSH = 32
 
 
 def plan(tier):
-    kinds = ['A', 'B', 'C', 'D', 'E', 'F']
+    kinds = ['A', 'B', 'C', 'D', 'E', 'F', 'H']
     hd = 5 if tier == 'quick' else 6
     return [(kind, k, NSH, tier) for kind in kinds for k in range(NSH)] + [('hist', hd, k, 2 * NSH) for k in range(2 * NSH)]
 
@@ -571,6 +594,12 @@ def run_shard(spec):
                 continue
             for si, sc in enumerate(scen_db(gs)):
                 run_endings(sc, acc, ('E', idx, si))
+    elif kind == 'H':
+        for idx, store, goal in corpus_varfacts():
+            if idx % n != k:
+                continue
+            for si, sc in enumerate(scen_varfacts(store, goal)):
+                run_endings(sc, acc, ('H', idx, si))
     else:
         for idx, t in corpus_trees(1 if tier == 'quick' else 2):
             if idx % n != k:
@@ -617,7 +646,7 @@ def replay_by_label(case):
         gens = [(scen_tree(t) for _, t in corpus_trees(1 if tier == 'quick' else 2)),
                 (scen_head(h, b, q) for _, h, b, q in corpus_heads(tier)),
                 (scen_meta(*r) for _, *r in corpus_meta(0 if tier == 'quick' else 1)),
-                (scen_db(gs) for _, gs in corpus_db(tier))]
+                (scen_db(gs) for _, gs in corpus_db(tier)), (scen_varfacts(st, g) for _, st, g in corpus_varfacts())]
         for gen in gens:
             for scs in gen:
                 for sc in scs:
